@@ -228,20 +228,24 @@ structure TSt where
   e : Nat := 0
   c : Nat := 0
 
+/-- script items on which a provider call raises: `x` a foreign exception, `u`/`q`/`t`/`e` the library's own
+    ProviderUnavailableError / QuotaExhaustedError / TranscriptionFailedError / NucleusError -/
+def raises (item : Char) : Bool := item = 'x' || item = 'u' || item = 'q' || item = 't' || item = 'e'
+
 def toolAdv (ps ts cs : List Char) : ToolAdv TSt Nat Nat TRes where
   completeTools s _ :=
     let item := pick ps s.p '1'
     let s' := { s with p := s.p + 1 }
-    if item = 'x' then (s', .raise)
+    if raises item then (s', .raise)
     else if item.isDigit then (s', .ok (1000 + s.p, (List.range (item.toNat - '0'.toNat)).map fun j => s.p * 10 + j))
     else (s', .ok (1000 + s.p, []))
   complete s _ :=
-    match pick cs s.c 'r' with
-    | 'x' => ({ s with c := s.c + 1 }, .raise)
-    | _ => ({ s with c := s.c + 1 }, .ok (2000 + s.c))
+    if raises (pick cs s.c 'r') then ({ s with c := s.c + 1 }, .raise)
+    else ({ s with c := s.c + 1 }, .ok (2000 + s.c))
   exec s call :=
     match pick ts s.e 'o' with
     | 'x' => ({ s with e := s.e + 1 }, .raise)
+    | 'u' => ({ s with e := s.e + 1 }, .raise)
     | 'f' => ({ s with e := s.e + 1 }, .ok ⟨call, false, [100 + s.e]⟩)
     | 'b' => ({ s with e := s.e + 1 }, .ok ⟨call, true, []⟩)          -- empty output
     | 'w' => ({ s with e := s.e + 1 }, .ok ⟨call, true, []⟩)          -- whitespace-only output
